@@ -11,6 +11,7 @@ import AnyVecModel.Props.Refine
 import AnyVecModel.Proofs.KernelSwap
 namespace AnyVec
 namespace C13
+variable {bg : Nat → Option VecSt}
 open World
 
 /-- `get(i)` / `at(i)` read exactly slot `i` when `i < len`, change nothing, … -/
@@ -147,7 +148,7 @@ theorem self_reports_are_the_source (known : Bool) :
 after any history of element-wise operations from any reachable world - `get(i)` shows exactly the abstract item at
 `i`, `None` past the end, and changes nothing; `at(i)` is the same inside the bounds. -/
 theorem get_shows_the_abstract_item (cfg : Cfg) (v ty i : Nat) (w : World) (s : Refine.Spec)
-    (h : Refine.Rel v ty w s) :
+    (h : Refine.Rel bg v ty w s) :
     step cfg (.get v i false) w = (w, .ok [match s.items[i]? with | some id => cfg.tok id | none => "N"]) ∧
     (i < s.items.length → step cfg (.get v i true) w = step cfg (.get v i false) w) :=
   Refine.get_refines cfg v ty i w s h
